@@ -32,6 +32,8 @@ def run(chk):
                 'non-trivial: accepted inputs; distinct by text.')
     base = [c for c in streams.snippet_cases() if c[0] in ('file', 'expr', 'stmt')]
     n = 3 if chk.tier == 'quick' else 12
+    from orch import interact
+    base = base + [('file', t_) for p_ in interact.programs() for t_ in [p_['text']] + p_['variants']]
     cases = streams.dedup(base + streams.mutants(rng, base, n, 3) + streams.soup(rng, 6000 * n, modes=('file', 'expr', 'stmt')) + [(m, s) for _, m, s in streams.contexts(chk.tier != 'quick')])
     a, b = run_both(chk, 'first-parse', cases, robust=True)
     acc = [((m, s), outcome(l)[1]) for (m, s), l in zip(cases, a) if outcome(l)[0] == 'ok']
